@@ -221,7 +221,9 @@ async fn run_kind(kind: &str, backend: Backend, work: &Path, logs_dir: &Path) ->
         // second device = copy of the data dir before the first sync
         dev.close().await;
         fsutil::copy_dir(&cdir, &work.join("client2"))?;
-        let dev = Dev::open(&cdir, backend, account_id, vkit::acct::password()).await?;
+        let mut dev = Dev::open(&cdir, backend, account_id, vkit::acct::password()).await?;
+        // a fresh sign-in builds the search index from the decrypted folders
+        let _ = dev.account.initialize_search_index().await;
         let d1 = Device::connect(dev, 0, &tee.origin).await?;
         if d1.sync().await != SyncResult::Ok {
             return Err(anyhow!("sync failed"));
@@ -262,6 +264,14 @@ async fn run_kind(kind: &str, backend: Backend, work: &Path, logs_dir: &Path) ->
         let _ = d2.sync().await;
         d1.close().await;
         d2.close().await;
+        // one more fresh sign-in on each device: the search index is built
+        // from the final decrypted folders
+        for dir in [&cdir, &work.join("client2")] {
+            if let Ok(mut d) = Dev::open(dir, backend, account_id, vkit::acct::password()).await {
+                let _ = d.account.initialize_search_index().await;
+                d.close().await;
+            }
+        }
         server.stop().await;
         tee.task.abort();
         let wire = tee.captured.lock().unwrap().clone();
@@ -583,7 +593,8 @@ async fn run_histories(first: usize, backend: Backend, depth: usize, work: &Path
             fsutil::copy_dir(&bdir, &cdir)?;
             let server = start_server(&run.join("server"), backend == Backend::Db, None, None).await?;
             let tee = start_tee(server.addr).await?;
-            let dev = Dev::open(&cdir, backend, account_id, vkit::acct::password()).await?;
+            let mut dev = Dev::open(&cdir, backend, account_id, vkit::acct::password()).await?;
+            let _ = dev.account.initialize_search_index().await;
             let d = Device::connect(dev, 0, &tee.origin).await?;
             let mut markers = base_markers.clone();
             let mut outcome = String::new();
@@ -685,6 +696,14 @@ async fn run_histories(first: usize, backend: Backend, depth: usize, work: &Path
             outcome.push(if fin == SyncResult::Ok { 's' } else { 'e' });
             outcomes.insert(format!("{}:{}", q.iter().map(|o| HOPS[*o]).collect::<Vec<_>>().join(">"), outcome));
             d.close().await;
+            {
+                // fresh sign-in with the password in force at the end
+                let cur = markers.iter().rev().find(|(n, _)| n == "accepted_account_password").map(|(_, v)| String::from_utf8(v.clone()).unwrap()).unwrap_or(vkit::acct::PASSWORD.to_string());
+                if let Ok(mut d) = Dev::open(&cdir, backend, account_id, secrecy::SecretString::new(cur.into())).await {
+                    let _ = d.account.initialize_search_index().await;
+                    d.close().await;
+                }
+            }
             server.stop().await;
             tee.task.abort();
             let wire = tee.captured.lock().unwrap().clone();
@@ -795,12 +814,13 @@ fn main() {
     if pool::worker_stage().is_some() {
         let wd = fsutil::WorkDir::new("leakx-w");
         let rt = rt();
-        // the real file logger at its default level (what the apps, the
-        // CLI and the extension helper install): log files are storage too
+        // the real file logger (what the apps, the CLI and the extension
+        // helper install) at the most verbose level a user can configure:
+        // log files are storage too
         std::env::remove_var("RUST_LOG");
         let logs_dir = wd.path().join("logs");
         std::fs::create_dir_all(&logs_dir).unwrap();
-        let _ = sos_logs::Logger::new_dir(logs_dir.clone(), "saveoursecrets.log".to_string()).init_file_subscriber(None);
+        let _ = sos_logs::Logger::new_dir(logs_dir.clone(), "saveoursecrets.log".to_string()).init_file_subscriber(Some("trace".to_string()));
         pool::worker_loop(|idx| {
             let (k, b) = &its[idx];
             if let Some(o) = k.strip_prefix("history:") {
